@@ -36,6 +36,7 @@ pub struct Mon {
     pub analysis: Rc<crate::analysis::Analysis>,
     pub produced: BTreeMap<String, BTreeSet<String>>, // C14 ground truth: content ids each peer produced itself
     pub rmodel: Option<Rc<crate::refmodel::RResult>>,
+    pub extra_taint: BTreeSet<String>,
     pub scratch: BTreeMap<String, Vec<String>>, // per-history oracle state (C11, C13, C18)
 }
 
@@ -234,6 +235,7 @@ impl Mon {
             analysis: Rc::new(crate::analysis::analyse(ast)),
             produced: BTreeMap::new(),
             rmodel: None,
+            extra_taint: BTreeSet::new(),
             scratch: BTreeMap::new(),
         }
     }
@@ -258,6 +260,25 @@ impl Mon {
                 (w.events.last().map(|e| e.0).unwrap_or(0), t)
             }
         };
+        let mut taint = taint;
+        taint.extend(self.extra_taint.iter().cloned());
+        if idx.is_none() {
+            // end-of-history oracles run shadow merges; the call sites they hit classify too
+            for p in &w.shadow_probes {
+                match p.as_str() {
+                    "remote_call_unresolved_args" => {
+                        taint.insert("F2probe".into());
+                    }
+                    "fold_end_leftover_lore" => {
+                        taint.insert("F1".into());
+                    }
+                    "stream_fold_unvisited_values" => {
+                        taint.insert("F16".into());
+                    }
+                    _ => {}
+                }
+            }
+        }
         // details may quote strings taken from corrupted data; keep the harness's own strings valid UTF-8
         let detail = String::from_utf8_lossy(detail.as_bytes()).into_owned();
         let tag = String::from_utf8_lossy(tag.as_bytes()).into_owned();
